@@ -13,4 +13,4 @@ for m in inp["mats"]:
         out.append("refuse")
     except Exception as e:  # noqa
         out.append("other:" + type(e).__name__)
-json.dump({"results": out}, open(sys.argv[2], "w"))
+json.dump({"results": out, "negative_tol": python.assert_valid_covariance.__kwdefaults__["negative_tol"]}, open(sys.argv[2], "w"))
